@@ -6,6 +6,7 @@ packet parser and recognised against the RFC 4880 11.3 grammar (recursing into c
 one-pass packets are compared with the trailing signatures (number, reverse order, type, algorithms, issuer, only the last marked final);
 the export is imported back (binary and armor) and compared field by field; foreign framings of the same composition must import equally.
 """
+import copy
 import warnings
 from datetime import datetime, timezone, timedelta
 
@@ -187,6 +188,12 @@ def _case(ctx, d, pgpy):
         for j, (s, h) in enumerate(zip(d['signers'], d['hashes'])):
             k = sigwork.signer_key(s)
             msg |= k.sign(msg, hash=getattr(HashAlgorithm, h), created=t0 + timedelta(seconds=0 if d['same_time'] else j * (7 if j % 2 else -5)))
+            if not msg.is_encrypted and j + 1 < len(d['signers']):
+                # the export after every single addition is a message of the grammar too (and an unchanged copy exports identically)
+                ctx.count('intermediate_exports')
+                check_export(ctx, bytes(msg), d, j + 1, dict(where, stage='after signer %d of %d' % (j + 1, len(d['signers']))))
+                if bytes(copy.copy(msg)) != bytes(msg):
+                    ctx.fail('copy-of-message-exports-differently', dict(where, stage='after signer %d' % (j + 1)))
         return msg
     if stage != 'key-then-sign':
         m = sign_all(m)
